@@ -1751,8 +1751,11 @@ class InTablePhase(Phase):
     def startTagTable(self, token):
         self.parser.parseError("unexpected-start-tag-implies-end-tag",
                                {"startName": "table", "endName": "table"})
+        # Reprocess the token unless the implied end tag is ignored
+        # (no table in table scope: fragment case)
+        ignoreEndTag = not self.tree.elementInScope("table", variant="table")
         self.parser.phase.processEndTag(impliedTagToken("table"))
-        if not self.parser.innerHTML:
+        if not ignoreEndTag:
             return token
 
     def startTagStyleScript(self, token):
